@@ -38,7 +38,8 @@ import (
 //	blk <name> <height> <prev> <ts> <blockroot> <txs> <bookkeepers> <sigs> <cfg> <lastcfg> <hash>
 //	    defines a block (no ledger action). txs: tx/tx/..., tx = <nonce>.<proghex|_>.<txhash>;
 //	    bookkeepers: key indices; sigs: s<i> valid signature of key i over the header hash, w<i> signature
-//	    of key i over another message, g undecodable bytes; cfg: "-" or c<i,j,..> (announced validator set).
+//	    of key i over another message, g undecodable bytes; cfg: "-" or c<i,j,..> (announced validator set) or x
+//	    (consensus payload that does not decode).
 //	add <name> [badroot]   ExecuteBlock + AddBlock(block, state root)      -> verdict + observation
 //	sub <name>             ExecuteBlock + SubmitBlock(block, result)       -> verdict + observation
 //	hdr <name>             AddHeader                                       -> verdict + observation
@@ -162,6 +163,7 @@ type blockSpec struct {
 	sigs                    []string
 	cfg                     []int
 	hasCfg                  bool
+	badPayload              bool // the consensus payload is not valid JSON
 	lastCfg                 uint32
 	hash                    string
 	txsTok, bkTok, sgTok, cfgTok string
@@ -249,6 +251,9 @@ func payloadJSON(lastCfg uint32, hasCfg bool, cfg []int) []byte {
 func (b *blockSpec) materialize(check bool) (*types.Block, error) {
 	hdr := &types.Header{Version: 0, ChainID: chainID(), PrevBlockHash: b.prev, BlockRoot: b.root, Timestamp: b.ts,
 		Height: b.height, ConsensusData: uint64(b.height) + 7, ConsensusPayload: payloadJSON(b.lastCfg, b.hasCfg, b.cfg)}
+	if b.badPayload {
+		hdr.ConsensusPayload = []byte(fmt.Sprintf("{\"leader\":0,\"last_config_block_num\":%d,", b.lastCfg))
+	}
 	blk := &types.Block{Header: hdr}
 	for i := range b.txs {
 		tx, err := buildTx(b.txs[i].nonce, b.txs[i].prog)
@@ -337,6 +342,9 @@ func (b *blockSpec) opLine() string {
 	cfg := "-"
 	if b.hasCfg {
 		cfg = "c" + strings.TrimPrefix(intsToken(b.cfg), "-")
+	}
+	if b.badPayload {
+		cfg = "x"
 	}
 	sg := "-"
 	if len(b.sigs) > 0 {
@@ -742,7 +750,9 @@ func (w *world) Exec(r *hx.Run, op []string) string {
 		if op[8] != "-" {
 			b.sigs = strings.Split(op[8], ",")
 		}
-		if op[9] != "-" {
+		if op[9] == "x" {
+			b.badPayload = true
+		} else if op[9] != "-" {
 			if op[9][0] != 'c' {
 				return "bad-op"
 			}
@@ -812,8 +822,11 @@ func (w *world) Exec(r *hx.Run, op []string) string {
 		o := w.main.observe()
 		w.checkSetsInForce(r, "restart", o)
 		return "ok " + o.String()
-	case "crash":
-		if len(op) != 3 || w.blocks[op[1]] == nil {
+	case "crash", "crashr":
+		// crashr <name> <k> <r,r,..>: after the crash at point k of submitBlock every further start is stopped inside
+		// recoverStore at point r (0 = nothing committed, 1 = event store, 2 = event and state store) until the list is
+		// used up; then the node is started normally
+		if (op[0] == "crash" && len(op) != 3) || (op[0] == "crashr" && len(op) != 4) || w.blocks[op[1]] == nil {
 			return "bad-op"
 		}
 		if w.main.store == nil {
@@ -849,6 +862,42 @@ func (w *world) Exec(r *hx.Run, op []string) string {
 			return "nocrash:" + errClass(addErr) + " " + w.main.observe().String()
 		}
 		w.main.close()
+		pattern := ""
+		if op[0] == "crashr" {
+			rs, err := parseInts(op[3])
+			if err != nil {
+				return "bad-op"
+			}
+			for _, rp := range rs {
+				w.main.close()
+				again := false
+				var oerr error
+				func() {
+					defer func() {
+						if e := recover(); e != nil {
+							if _, ok := e.(ledgerstore.VerifCrash); ok {
+								again = true
+								return
+							}
+							panic(e)
+						}
+					}()
+					ledgerstore.VerifCrashAt = 4 + rp
+					oerr = w.main.open()
+				}()
+				ledgerstore.VerifCrashAt = -1
+				switch {
+				case again:
+					pattern += "R"
+				case oerr != nil:
+					pattern += "e"
+				default:
+					pattern += "n"
+				}
+			}
+			w.main.close()
+			pattern = " " + pattern
+		}
 		rerr := w.main.open()
 		// the uncrashed twin: a crash before the first commit loses the block (it was never acknowledged),
 		// a crash after it must end in the state of a complete submission
@@ -869,7 +918,7 @@ func (w *world) Exec(r *hx.Run, op []string) string {
 			if want != "" {
 				r.Viol(fmt.Sprintf("C12:restart-fails:k=%d", k), fmt.Sprintf("ledger cannot be reopened after a crash at point %d while persisting block %d: %v", k, spec.height, rerr))
 			}
-			return "crashed " + errClass(rerr)
+			return "crashed" + pattern + " " + errClass(rerr)
 		}
 		got := w.main.observe()
 		if got.bh != got.sh {
@@ -879,7 +928,7 @@ func (w *world) Exec(r *hx.Run, op []string) string {
 			r.Viol(fmt.Sprintf("C12:recovered-state-differs:k=%d", k), fmt.Sprintf("after a crash at point %d while persisting block %d and a restart the ledger differs from the uncrashed twin: %s", k, spec.height, diffFields(got.durable(), want)))
 		}
 		w.checkSetsInForce(r, "crash-restart", got)
-		return "crashed ok " + got.String()
+		return "crashed" + pattern + " ok " + got.String()
 	case "root":
 		// root <start> <hash,hash,..>: GetBlockRootWithPreBlockHashes as a proposer calls it
 		if len(op) != 3 || w.main.store == nil {
